@@ -55,7 +55,7 @@ Next == NextMut \/ NextShared
 NextBuild == \E id \in Ids, p \in Payloads : InsertById(id[1], id, p)
 
 VARIABLE hist
-mcvars == <<store, borrow, guards, dropped, returned, nextIdent, call, outcome, hist>>
+mcvars == <<store, borrow, guards, dropped, returned, nextIdent, call, outcome, iters, hist>>
 
 MCInit == Init /\ hist = <<>>
 \* Phase = 0: every call at every step.  Phase = k > 0: the first k calls populate the
@@ -64,6 +64,7 @@ MCInit == Init /\ hist = <<>>
 MCNext ==
   /\ Len(hist) < MaxSteps
   /\ IF Phase = 0 THEN Next ELSE IF Len(hist) < Phase THEN NextBuild ELSE NextShared
+  /\ UNCHANGED iters            \* step-wise iteration is exercised by the random real histories only
   /\ hist' = Append(hist, [call |-> call', out |-> outcome', st |-> store', br |-> borrow', gd |-> guards',
                               n |-> nextIdent', D |-> dropped' \cup returned'])
 MCSpec == MCInit /\ [][MCNext]_mcvars
